@@ -560,6 +560,72 @@ func returnsErrorOnNArg(p *Prog, fn *ssa.Function) bool {
 // ---------------------------------------------------------------------------------------------
 // EFF-4
 
+// validatedGrowWrapper: an unexported module function whose every return hands back, unchanged and in order, the
+// results of one grower.grow invoke that is dominated by enableValidation() on the same grower.
+func validatedGrowWrapper(p *Prog, h *ssa.Function) bool {
+	if !p.InModule(h) || len(h.Blocks) == 0 || h.Object() == nil || h.Object().Exported() {
+		return false
+	}
+	var grow *ssa.Call
+	n := 0
+	allInstrs(h, func(in ssa.Instruction) {
+		if c, ok := in.(*ssa.Call); ok && c.Common().IsInvoke() && methodName(c.Common().Method) == "grow" {
+			grow = c
+			n++
+		}
+	})
+	if n != 1 {
+		return false
+	}
+	ev := false
+	allInstrs(h, func(in ssa.Instruction) {
+		c, ok := in.(*ssa.Call)
+		if !ok || !c.Common().IsInvoke() || methodName(c.Common().Method) != "enableValidation" || !sameVar(c.Common().Value, grow.Common().Value) {
+			return
+		}
+		if c.Block() == grow.Block() && instrIndex(c) < instrIndex(grow) || (c.Block() != grow.Block() && c.Block().Dominates(grow.Block())) {
+			ev = true
+		}
+	})
+	if !ev || !sameSignatureResults(h.Signature.Results(), grow.Common().Signature().Results()) {
+		return false
+	}
+	ok, nRet := true, 0
+	allInstrs(h, func(in ssa.Instruction) {
+		r, isRet := in.(*ssa.Return)
+		if !isRet {
+			return
+		}
+		nRet++
+		for i, v := range rr(r) {
+			v = resolve(v)
+			if len(rr(r)) == 1 {
+				if v != ssa.Value(grow) {
+					ok = false
+				}
+				continue
+			}
+			ex, isEx := v.(*ssa.Extract)
+			if !isEx || ex.Tuple != ssa.Value(grow) || ex.Index != i {
+				ok = false
+			}
+		}
+	})
+	return ok && nRet > 0
+}
+
+func sameSignatureResults(a, b *types.Tuple) bool {
+	if a.Len() != b.Len() {
+		return false
+	}
+	for i := 0; i < a.Len(); i++ {
+		if !types.Identical(a.At(i).Type(), b.At(i).Type()) {
+			return false
+		}
+	}
+	return true
+}
+
 func ruleEFF4(w *World) []Ob {
 	l := &obs{rule: "EFF-4"}
 	p := w.D()
@@ -638,10 +704,17 @@ func ruleEFF4(w *World) []Ob {
 			var gate func(f *ssa.Function, site ssa.CallInstruction, args []ssa.Value, depth int) string
 			gate = func(f *ssa.Function, site ssa.CallInstruction, args []ssa.Value, depth int) string {
 				var grow *ssa.Call
+				wrapped := false
 				allInstrs(f, func(in2 ssa.Instruction) {
 					c, ok := in2.(*ssa.Call)
-					if ok && c.Common().IsInvoke() && methodName(c.Common().Method) == "grow" && c.Block().Dominates(site.Block()) {
-						grow = c
+					if !ok || !c.Block().Dominates(site.Block()) {
+						return
+					}
+					if c.Common().IsInvoke() && methodName(c.Common().Method) == "grow" {
+						grow, wrapped = c, false
+					} else if h := c.Common().StaticCallee(); h != nil && grow == nil && validatedGrowWrapper(p, h) {
+						// a helper that switches the validation on, grows and hands grow's results back unchanged
+						grow, wrapped = c, true
 					}
 				})
 				if grow == nil && f.Parent() != nil && depth < 3 {
@@ -695,10 +768,10 @@ func ruleEFF4(w *World) []Ob {
 					return "no grower.grow call dominates the entry into the " + into + " stage: node paths are not assembled and names not validated"
 				}
 				// enableValidation on the same grower dominating grow
-				evOK := false
+				evOK := wrapped
 				allInstrs(f, func(in2 ssa.Instruction) {
 					c, ok := in2.(*ssa.Call)
-					if !ok || !c.Common().IsInvoke() || methodName(c.Common().Method) != "enableValidation" {
+					if wrapped || !ok || !c.Common().IsInvoke() || methodName(c.Common().Method) != "enableValidation" {
 						return
 					}
 					if !sameVar(c.Common().Value, grow.Common().Value) {
@@ -1059,7 +1132,7 @@ func ruleEFF4(w *World) []Ob {
 			}
 			for _, pair := range [][2]ssa.Value{{b.X, b.Y}, {b.Y, b.X}} {
 				if _, f, isF := fieldOfLoad(pair[0]); isF && f == "name" {
-					if sv, isS := constString(pair[1]); isS && (sv == "." || sv == "..") {
+					if sv, isS := constString(pair[1]); isS && (sv == "." || sv == ".." || sv == "") {
 						// does a true outcome lead to a non-nil error return?  (either directly or through the || phi)
 						for blk := range blockReachOnTrue(b) {
 							for _, i2 := range blk.Instrs {
@@ -1076,6 +1149,43 @@ func ruleEFF4(w *World) []Ob {
 			l.ok("(*gtree.Node).validatePath", "rejecting atom: name is \".\" or \"..\"", pp.Pos(vp.Pos()), "a non-nil error is returned when the node name is \".\" or \"..\"", true, "validate")
 		} else {
 			l.bad("(*gtree.Node).validatePath", "rejecting atom: name is \".\" or \"..\"", pp.Pos(vp.Pos()), "no return of a non-nil error for the names \".\" and \"..\": path.Join resolves them away, so the joined path passes fs.ValidPath although it is not this node's path — `a/..` is accepted and nothing (or the wrong directory) is made for it", "validate")
+		}
+		// fourth atom: the empty name — path.Join drops it, so the children of "" are made in its parent and the joined
+		// path is valid although the tree holds a name that is no path element
+		emptyOK := dotNames[""]
+		allInstrs(vp, func(in ssa.Instruction) {
+			b, ok := in.(*ssa.BinOp)
+			if !ok {
+				return
+			}
+			lc, isL := b.X.(*ssa.Call)
+			k, isK := constInt(b.Y)
+			if !isL || !isK || !isBuiltinCall(lc, "len") {
+				return
+			}
+			if _, f, isF := fieldOfLoad(lc.Common().Args[0]); !isF || f != "name" {
+				return
+			}
+			// the outcome of the comparison that means "empty"
+			var emptyOn map[*ssa.BasicBlock]bool
+			switch {
+			case (b.Op == token.EQL && k == 0) || (b.Op == token.LSS && k == 1) || (b.Op == token.LEQ && k == 0):
+				emptyOn = blockReachOnTrue(b)
+			default:
+				return
+			}
+			for blk := range emptyOn {
+				for _, i2 := range blk.Instrs {
+					if r, isR := i2.(*ssa.Return); isR && nc.nonNil(rr(r)[0], r, 0) {
+						emptyOK = true
+					}
+				}
+			}
+		})
+		if emptyOK {
+			l.ok("(*gtree.Node).validatePath", "rejecting atom: name is empty", pp.Pos(vp.Pos()), "a non-nil error is returned when the node name is empty", true, "validate")
+		} else {
+			l.bad("(*gtree.Node).validatePath", "rejecting atom: name is empty", pp.Pos(vp.Pos()), "no return of a non-nil error for the empty name: path.Join drops an empty element, so the joined path passes fs.ValidPath and the children of \"\" are made in its parent — a tree holding a name that is no path element is accepted", "validate")
 		}
 		if validOK {
 			l.ok("(*gtree.Node).validatePath", "rejecting atom: !fs.ValidPath(path)", pp.Pos(vp.Pos()), "a non-nil error is returned on the false side of fs.ValidPath(n.path())", true, "validate")
@@ -1736,6 +1846,39 @@ func ruleEFF6(w *World) []Ob {
 			l.ok(fid, construct, pos, "dominated by the not-exists side of "+relFunc(test.Common().StaticCallee())+" over the same roots; the exists side yields a non-nil error", true, "exists")
 		})
 	}
+	// simple mode: the mkdirer is entered once with all the roots — entered root by root (a loop over the roots, the
+	// body of a range over the root iterator) its existence test sees one root at a time and the roots before a
+	// pre-existing one are made already when the path-exists error comes back
+	{
+		mk := implementors(p, "mkdirer")
+		for _, fn := range libFuncs(p) {
+			if mk[recvTypeName(outermost(fn))] {
+				continue
+			}
+			num := numbered{}
+			allInstrs(fn, func(in ssa.Instruction) {
+				c, ok := in.(*ssa.Call)
+				if !ok {
+					return
+				}
+				simple := false
+				for _, g := range p.ModCallees(c) {
+					if mk[recvTypeName(g)] && fname(g) == "mkdir" && strings.HasSuffix(recvTypeName(g), "Simple") {
+						simple = true
+					}
+				}
+				if !simple {
+					return
+				}
+				construct := num.name("all roots handed to " + calleeString(c.Common()) + " at once")
+				if inLoop(c) || strings.HasPrefix(fn.Synthetic, "range-over-func") {
+					l.bad(p.FuncID(fn), construct, p.InstrPos(c), "the simple mkdirer is entered once per root (inside a loop over the roots): its existence test covers only that root, so roots handled before a pre-existing one are created although the call fails with the path-exists error — the filesystem is not left unchanged", "exists-all")
+				} else {
+					l.ok(p.FuncID(fn), construct, p.InstrPos(c), "a single call outside any loop: the existence test sees every root before anything is created", true, "exists-all")
+				}
+			})
+		}
+	}
 	if n == 0 {
 		l.undecided("-", "creating calls in the mkdirer", "-", "none found", "exists")
 	}
@@ -1811,6 +1954,19 @@ func statsEveryElement(p *Prog, fn *ssa.Function, nc *nilCtx) string {
 			pred = f.Fn.(*ssa.Function)
 		case *ssa.Function:
 			pred = f
+		}
+		// a method value (dm.isExist): the synthetic wrapper stands for the method it calls
+		for d := 0; pred != nil && pred.Synthetic != "" && d < 2; d++ {
+			var inner *ssa.Function
+			allInstrs(pred, func(in2 ssa.Instruction) {
+				if c2, ok := in2.(*ssa.Call); ok && c2.Common().StaticCallee() != nil {
+					inner = c2.Common().StaticCallee()
+				}
+			})
+			if inner == nil {
+				break
+			}
+			pred = inner
 		}
 		if pred == nil || !isExistencePredicate(pred) {
 			libForm = "the predicate given to slices.ContainsFunc is not an existence test (os.Stat, !os.IsNotExist)"
